@@ -507,7 +507,7 @@ fn pool_subject(what: &str) -> Result<String, String> {
         }
         "set-speed-train" => {
             let net = build_topology(&line_topology(&[1200.0, 900.0], 15.0), true, SetStyle::Map);
-            let spec = TrainSpec { n_loaded: 7, n_empty: 5, davis: true, mass_override: None, length_override: None, consist: 3 };
+            let spec = TrainSpec { n_loaded: 7, n_empty: 5, davis: true, mass_override: None, length_override: None, consist: 3, cd_vec: false };
             let b = builder(&spec, None, Some(InitTrainState::new(Some(0.0 * uc::S), None, Some(3.0 * uc::MPS))), Some(1));
             let n = 20usize;
             let time: Vec<f64> = (0..=n).map(|x| x as f64).collect();
